@@ -1,8 +1,8 @@
 #!/usr/bin/env python3
 """Run the registered quick checks against each confirmed seeded mutant.
-For every /verif/seeded/<id>/ : apply patch.diff to /repo's working tree, run
+For every /verif/seeded/<id>/ : apply patch.diff to a scratch worktree of /repo's HEAD, run
 ./check <property> (the property the mutant breaks, plus any given with --also),
-record the outcome in /verif/seeded/<id>/detect.json, and restore /repo.
+record the outcome in /verif/seeded/<id>/detect.json, and remove the worktree (/repo itself is never touched).
 Usage: seed_detect.py [--also C01,C07] [--tier quick] [id-prefix ...]"""
 import json, os, subprocess, sys, glob, time
 args = sys.argv[1:]
@@ -14,9 +14,7 @@ while args and args[0].startswith("--"):
 def sh(cmd, cwd=None):
     p = subprocess.run(cmd, shell=True, cwd=cwd, capture_output=True, text=True, env=dict(os.environ, VERIF_NO_EVIDENCE="1"))
     return p.returncode, p.stdout + p.stderr
-rc, out = sh("git status --porcelain", "/repo")
-if out.strip():
-    print("repo not clean:", out); sys.exit(2)
+WT = "/tmp/wtdetect"
 dirs = sorted(d for d in glob.glob("/verif/seeded/*") if os.path.exists(os.path.join(d, "meta.json")))
 if args:
     dirs = [d for d in dirs if any(os.path.basename(d).startswith(a) for a in args)]
@@ -26,13 +24,16 @@ for d in dirs:
     props = [meta["breaks_property"]] + [p for p in meta.get("also_mentioned", []) + also if p != meta["breaks_property"]]
     props = list(dict.fromkeys(props))
     patch = os.path.join(d, "patch.diff")
-    rc, out = sh("git apply %s" % patch, "/repo")
+    # The patch is applied to a scratch worktree of /repo's HEAD and the check is built against
+    # that copy (VERIF_REPO, see ./check): /repo's own working tree is never modified, so a
+    # sweep or another check can run at the same time.
+    sh("git -C /repo worktree remove --force %s" % WT)
+    rc, out = sh("git -C /repo worktree add -q --detach %s HEAD" % WT)
     if rc != 0:
-        rc, out = sh("patch -p1 --fuzz=3 --no-backup-if-mismatch -i %s" % patch, "/repo")
-        if rc != 0:
-            print(name, "PATCH DOES NOT APPLY"); sh("git checkout -- . && git clean -fdq", "/repo"); continue
-        _, diff = sh("git diff", "/repo")
-        open(patch, "w").write(diff)  # refresh against the current tree
+        print("cannot create the scratch worktree:", out); sys.exit(2)
+    rc, out = sh("git apply %s" % patch, WT)
+    if rc != 0:
+        print(name, "PATCH DOES NOT APPLY"); sh("git -C /repo worktree remove --force %s" % WT); continue
     results = {}
     try:
         for p in props:
@@ -40,7 +41,7 @@ for d in dirs:
                 results[p] = {"exit": None, "note": "check not built"}
                 continue
             t0 = time.time()
-            rc, out = sh("./check %s --tier %s" % (p, tier), "/verif")
+            rc, out = sh("VERIF_REPO=%s ./check %s --tier %s" % (WT, p, tier), "/verif")
             viol = [l for l in out.splitlines() if l.startswith("VIOLATION")]
             cause = [l for l in out.splitlines() if l.strip().startswith("cause:")]
             results[p] = {"exit": rc, "detected": rc == 1 and bool(viol), "wall_s": round(time.time() - t0, 1),
@@ -48,7 +49,7 @@ for d in dirs:
             if rc not in (0, 1):
                 results[p]["tail"] = out[-600:]
     finally:
-        sh("git checkout -- . && git clean -fdq", "/repo")
+        sh("git -C /repo worktree remove --force %s" % WT)
     prev = {}
     dj = os.path.join(d, "detect.json")
     if os.path.exists(dj):
